@@ -578,7 +578,15 @@ pub fn judge_c10(info: &Info, log: &RunLog, rep: &mut Report) {
         if has_cancel_cond(who) {
             rep.count("c10_checked:canceller-reports-cancel");
         } else {
-            rep.violate("cancel-condition-not-reported", format!("where=canceller {}", history_shape(&d, info, who, 0)), &info.case, w(&format!("the cancelled {} never reported the cancel condition to its user", role)));
+            // the same cause as the recorded finding: the receiver did report the cancel and ended, the daemon then
+            // re-created the transaction from a PDU that arrived late, and that successor answered the cancelled
+            // sender with a Finished PDU carrying another condition, which the sender passed on to its user
+            let by_successor = who == t.src && cancel_ind.map_or(false, |(_, ct)| {
+                let s_fin = d.finished(t.src, id).first().map(|x| x.1).unwrap_or(u64::MAX);
+                d.spans(id, TaskKind::Recv).iter().any(|sp| sp.start_us > ct && sp.start_us <= s_fin)
+            });
+            let key = if by_successor { "where=canceller by=re-created-transaction".to_string() } else { format!("where=canceller {}", history_shape(&d, info, who, 0)) };
+            rep.violate("cancel-condition-not-reported", key, &info.case, w(&format!("the cancelled {} never reported the cancel condition to its user", role)));
         }
     }
     if info.hyp && mode_path {
